@@ -8,6 +8,9 @@
 (*   MC_Parser_thorough2.cfg all blocks of <= 3 lines over the middle alphabet   *)
 (*   MC_Parser_quick3.cfg / thorough3.cfg  all blocks of <= 3 / <= 4 lines over  *)
 (*                           the time alphabet (who defines the time axis)       *)
+(*   MC_Parser_quick4.cfg / thorough4.cfg  all blocks of <= 2 / <= 3 lines over  *)
+(*                           the separator alphabet (free text holding non-'\n'  *)
+(*                           line-separator characters)                          *)
 (*   MC_Parser_asfound.cfg   quick instance with the defect switched on          *)
 EXTENDS Parser
 
@@ -30,9 +33,9 @@ Stems == { << "eq", "x", "y+1" >>, << "eq", "y", "0.5*x+g" >>, << "eq", "g", "[2
            << "multieq", "x", "y" >> }
 
 MC_FormsAll ==
-    { F(st[1], st[2], st[3], c, s) : st \in Stems, c \in CommentClasses, s \in Spacings }
-    \cup { F("noeq", "", "x+y", c, s) : c \in CommentClasses, s \in Spacings }
-    \cup { F("comment", "", "", c, "one") : c \in CommentClasses \ {"none", "exo"} }
+    { F(st[1], st[2], st[3], c, s) : st \in Stems, c \in BaseClasses, s \in Spacings }
+    \cup { F("noeq", "", "x+y", c, s) : c \in BaseClasses, s \in Spacings }
+    \cup { F("comment", "", "", c, "one") : c \in BaseClasses \ {"none", "exo"} }
     \cup { F("blank", "", "", "none", s) : s \in Spacings }
     \cup { Marker }
 
@@ -91,8 +94,35 @@ MC_FormsTime == {
     Marker,
     Blank }
 
+(* separator alphabet (quick4: <= 2 lines / thorough4: <= 3 lines; the driver spells every block  *)
+(* with each of the separator characters): free text of the sep* classes behind every kind of     *)
+(* line, on comment-only lines, before and after the section marker                               *)
+MC_FormsSep == {
+    F("eq", "x", "y+1", "sepeq", "one"),
+    F("eq", "x", "y+1", "sepic", "tight"),
+    F("eq", "y", "0.5*x+g", "sepexo", "wide"),
+    F("eq", "q", "2*x", "sepplain", "one"),
+    F("lag1", "z", "x", "sepeq", "one"),
+    F("lag3", "z", "x", "sepexo", "wide"),
+    F("ic", "x", "3", "sepic", "one"),
+    F("ic", "z", "2.5", "sepeq", "wide"),
+    F("maxtime", "MaxTime", "3", "sepexo", "tight"),
+    F("errtol", "Err_Tolerance", "1e-4", "sepeq", "one"),
+    F("usert", "t", "2*k", "sepic", "one"),
+    F("noeq", "", "x+y", "sepeq", "one"),
+    F("multieq", "x", "y", "sepexo", "one"),
+    F("comment", "", "", "sepeq", "one"),
+    F("comment", "", "", "sepic", "one"),
+    F("comment", "", "", "sepplain", "one"),
+    F("eq", "x", "y+1", "none", "one"),
+    Marker,
+    Blank }
+
 (* middle alphabet (thorough2): the reduced one plus second spellings *)
 MC_FormsMiddle == MC_FormsReduced \cup MC_FormsTime \cup {
+    F("eq", "x", "y+1", "sepeq", "one"),
+    F("ic", "x", "3", "sepic", "one"),
+    F("eq", "y", "0.5*x+g", "sepexo", "wide"),
     F("eq", "g", "[2.]*10", "plain", "one"),
     F("eq", "y", "0.5*x+g", "exo", "one"),
     F("eq", "x", "y+1", "hash", "wide"),
